@@ -3,6 +3,8 @@ package main
 import (
 	"fmt"
 	"go/token"
+	"go/types"
+	"sort"
 	"strings"
 
 	"golang.org/x/tools/go/ssa"
@@ -18,6 +20,7 @@ func propC01(c *Ctx) propInfo {
 	c.bocDescriptors()
 	c.storedHashCount()
 	c.parserOwnsBytes()
+	c.hasherState()
 	c.levelMaskAlgebra() // hashes stored by other serialisers are indexed by the same mask functions
 	c.bocDepthLimitsAgree()
 	if f := c.mustFn("E1.P6-forward-refs", "boc", "DeserializeBoc"); f != nil {
@@ -621,15 +624,18 @@ func (c *Ctx) parserOwnsBytes() {
 	if f == nil {
 		return
 	}
-	okv := false
-	for _, st := range fieldStores(f, "buf") {
+	sts := fieldStores(f, "buf")
+	okv := len(sts) > 0
+	for _, st := range sts {
 		_, fresh := st.Val.(*ssa.MakeSlice)
 		if al, ok := st.Val.(*ssa.Slice); ok {
 			if a, ok := al.X.(*ssa.Alloc); ok && a.Comment == "makeslice" {
 				fresh = true
 			}
 		}
-		okv = fresh
+		if !fresh {
+			okv = false // every path: also a copy made only for some inputs leaves the others aliased
+		}
 	}
 	copied := false
 	for _, cl := range callsIn(f) {
@@ -639,4 +645,78 @@ func (c *Ctx) parserOwnsBytes() {
 	}
 	c.check(okv && copied, R, "SetTopUppedArray copies the caller's bytes into its own buffer", f.Pos(), "s.buf = make(len(arr)); copy(s.buf, arr)", "SetTopUppedArray keeps the caller's slice as the bit string's buffer: clearing the completion tag then modifies the bag-of-cells bytes the caller passed in (a second parse of the same bytes yields different cells, the CRC no longer matches)")
 	c.floor(R, 1)
+}
+
+// hasherState: (a) the two caches of a Hasher describe the same set of cells: a function that replaces
+// or clears one of its map fields does so for all of them (a partially reset hasher answers HashString
+// for a mutated cell from the stale hex cache - and the serialiser de-duplicates by that string);
+// (b) every hash is computed with a hash state created for it (no pooled or shared state that an error
+// path could leave dirty).
+func (c *Ctx) hasherState() {
+	const R = "E10.hasher-state"
+	var mapFields []string
+	if n := c.lookupType("boc.Hasher"); n != nil {
+		if st, ok := n.Underlying().(*types.Struct); ok {
+			for i := 0; i < st.NumFields(); i++ {
+				if _, ok := st.Field(i).Type().Underlying().(*types.Map); ok {
+					mapFields = append(mapFields, st.Field(i).Name())
+				}
+			}
+		}
+	}
+	sort.Strings(mapFields)
+	nf := 0
+	for _, f := range c.moduleFuncs("boc") {
+		touched := map[string]bool{}
+		allInstrs(f, func(_ *ssa.BasicBlock, in ssa.Instruction) {
+			switch x := in.(type) {
+			case *ssa.Store:
+				if tn, fn, ok := fieldOf(x.Addr); ok && tn == "boc.Hasher" {
+					if _, isMap := x.Val.Type().Underlying().(*types.Map); isMap {
+						touched[fn] = true
+					}
+				}
+			case *ssa.Call:
+				if bi, ok := x.Call.Value.(*ssa.Builtin); ok && (bi.Name() == "clear" || bi.Name() == "delete") {
+					if tn, fn, ok := fieldOfLoad(x.Call.Args[0]); ok && tn == "boc.Hasher" {
+						touched[fn] = true
+					}
+				}
+			}
+		})
+		if len(touched) == 0 {
+			continue
+		}
+		nf++
+		var got []string
+		for k := range touched {
+			got = append(got, k)
+		}
+		sort.Strings(got)
+		c.check(fmt.Sprint(got) == fmt.Sprint(mapFields), R, fnName(f)+" (re)initialises every cache of the Hasher together", f.Pos(), fmt.Sprint(got), fmt.Sprintf("%s replaces or clears the Hasher maps %v but the Hasher has %v: the caches no longer describe the same cells (a cell mutated between uses keeps its old hash string, and the serialiser merges it with a cell equal to its old content)", fnName(f), got, mapFields))
+	}
+	c.check(nf >= 1 && len(mapFields) == 2, R, "Hasher has two caches, initialised together", 0, fmt.Sprint(mapFields), fmt.Sprintf("Hasher map fields %v, %d initialising function(s)", mapFields, nf))
+	if f := c.mustFn(R, "boc", "newImmutableCell"); f != nil {
+		okv, n := true, 0
+		allInstrs(f, func(_ *ssa.BasicBlock, in ssa.Instruction) {
+			cl, ok := in.(*ssa.Call)
+			if !ok || !cl.Call.IsInvoke() || cl.Call.Method.Name() != "Sum" {
+				return
+			}
+			n++
+			fresh := derivesFrom(cl.Call.Value, callResult("crypto/sha256.New"), false)
+			shared := derivesFrom(cl.Call.Value, func(v ssa.Value) bool {
+				if _, ok := v.(*ssa.Global); ok {
+					return true
+				}
+				c2 := callOf(v)
+				return c2 != nil && strings.HasPrefix(callQName(&c2.Call), "sync.Pool.")
+			}, true)
+			if !fresh || shared {
+				okv = false
+			}
+		})
+		c.check(okv && n == 1, R, "every level hash is computed with its own sha256 state", f.Pos(), "x := sha256.New() per hash", "newImmutableCell takes the hash state from a pool or a shared variable: an error exit that returns it without Reset (or concurrent hashing) makes the next, unrelated cell hash to a wrong value")
+	}
+	c.floor(R, 3)
 }
